@@ -12,8 +12,10 @@ import (
 
 	"github.com/anishathalye/porcupine"
 	"go.starlark.net/starlark"
+	"go.starlark.net/syntax"
 
 	"verif/internal/driver"
+	"verif/internal/gen"
 	"verif/internal/sl"
 )
 
@@ -24,7 +26,7 @@ func init() {
 		Assumptions: []string{"VerifStepHook is called exactly once per instruction start, after the cancellation test", "porcupine v1.3.0 linearizability checker", "Go race detector (race variant)"},
 		Run:         run,
 		Variants: func(tier string) []driver.Variant {
-			return []driver.Variant{{Name: "default"}, {Name: "race", Race: true}}
+			return []driver.Variant{{Name: "default", VLimitKB: 7 << 20}, {Name: "race", Race: true}}
 		},
 		MinDistinct: 500,
 	})
@@ -133,7 +135,9 @@ type runOpts struct {
 	ops       *[256]int64
 }
 
-func execute(src string, o runOpts) *result {
+func execute(src string, o runOpts) *result { return executeOpts(src, sl.AllOptions(), o) }
+
+func executeOpts(src string, fopts *syntax.FileOptions, o runOpts) *result {
 	install()
 	th := o.thread
 	if th == nil {
@@ -168,7 +172,7 @@ func execute(src string, o runOpts) *result {
 	}
 	steps0 := th.ExecutionSteps()
 	res.panic = sl.Safe(func() {
-		_, res.err = starlark.ExecFileOptions(sl.AllOptions(), th, "c07.star", src, env)
+		_, res.err = starlark.ExecFileOptions(fopts, th, "c07.star", src, env)
 	})
 	if res.panic != nil {
 		if _, ok := res.panic.Value.(abortRun); ok {
@@ -195,6 +199,7 @@ func run(c *driver.Ctx) {
 		return
 	}
 	armStepLimit(c)
+	armGeneratedStepLimit(c)
 	armNonTerminating(c)
 	armCancelInBuiltin(c)
 	armAsyncInjected(c)
@@ -280,6 +285,61 @@ func armStepLimit(c *driver.Ctx) {
 	}
 }
 
+// armGeneratedStepLimit repeats the step-limit oracle on generated programs (internal/gen), which
+// execute many more opcodes and constructs than the fixed corpus.
+func armGeneratedStepLimit(c *driver.Ctx) {
+	n := c.Pick(80, 4000)
+	for i := 0; i < n; i++ {
+		if !c.Take() {
+			continue
+		}
+		r := c.Rand()
+		opts := syntax.FileOptions{Set: true, While: true, TopLevelControl: true, GlobalReassign: r.Intn(2) == 0, Recursion: r.Intn(2) == 0}
+		p := gen.Generate(r, gen.Config{Opts: opts, Loads: false, MaxStmts: 10})
+		src := gen.Render(p.Stmts, r, p.Options(gen.Plain))
+		var ops [256]int64
+		base := executeOpts(src, &opts, runOpts{ops: &ops, maxSteps: 200000})
+		if base.panic != nil || isCancelled(base.err, "too many steps") {
+			continue
+		}
+		S := base.steps
+		if S < 3 {
+			continue
+		}
+		for op, k := range ops {
+			if k > 0 {
+				c.Cover("opcodes_executed", starlark.VerifOpcodeName(uint8(op)))
+			}
+		}
+		if uint64(base.hs.count) != S {
+			c.Violation("C07 steps-vs-hook generated", fmt.Sprintf("ExecutionSteps=%d but the hook observed %d instruction starts", S, base.hs.count), map[string]any{"program": src})
+		}
+		ns := []uint64{1, 2, S - 1, S, S + 1}
+		for len(ns) < 14 {
+			ns = append(ns, 1+uint64(r.Int63n(int64(S))))
+		}
+		for _, N := range ns {
+			res := executeOpts(src, &opts, runOpts{maxSteps: N})
+			c.Eval(1)
+			c.Count("generated_steplimit_runs", 1)
+			detail := map[string]any{"program": src, "N": N, "S": S, "hook_count": res.hs.count, "err": fmt.Sprint(res.err)}
+			switch {
+			case res.panic != nil:
+				c.Violation("C07 panic steplimit generated", fmt.Sprintf("panic with limit %d: %v", N, res.panic.Value), detail)
+			case uint64(res.hs.count) >= N:
+				c.Violation("C07 overrun generated", fmt.Sprintf("limit N=%d but %d instruction starts were observed", N, res.hs.count), detail)
+			case N > S && ((res.err == nil) != (base.err == nil) || res.steps != S):
+				c.Violation("C07 spurious-cancel generated", fmt.Sprintf("limit N=%d > S=%d but outcome differs: err=%v steps=%d", N, S, res.err, res.steps), detail)
+			case N <= S && !isCancelled(res.err, "too many steps"):
+				c.Violation("C07 limit-ignored generated", fmt.Sprintf("limit N=%d <= S=%d but err=%v", N, S, res.err), detail)
+			case N <= S:
+				c.Distinct(fmt.Sprintf("G/%d/%d", c.Case(), N))
+				c.Cover("opcode_before_cut", starlark.VerifOpcodeName(res.hs.lastOp))
+			}
+		}
+	}
+}
+
 func armNonTerminating(c *driver.Ctx) {
 	limits := []uint64{1, 2, 10, 1000, 100000}
 	if c.Thorough() {
@@ -324,7 +384,7 @@ func armCancelInBuiltin(c *driver.Ctx) {
 			if !c.Take() {
 				continue
 			}
-			r := execute(p.src, runOpts{cancelAtB: j, reason: "first-reason", second: "second-reason"})
+			r := execute(p.src, runOpts{cancelAtB: j, reason: "first-reason 50%", second: "second-reason"})
 			c.Eval(1)
 			detail := map[string]any{"program": p.src, "cancel_in_builtin_call": j, "err": fmt.Sprint(r.err), "instruction_starts_after_cancel": r.afterBi}
 			if r.panic != nil {
@@ -334,12 +394,12 @@ func armCancelInBuiltin(c *driver.Ctx) {
 			if r.afterBi != 0 || r.hs.afterFlag != 0 {
 				c.Violation("C07 runs-after-cancel builtin", fmt.Sprintf("%d instruction(s) started after the cancelling built-in call #%d returned (%s)", r.afterBi, j, p.name), detail)
 			}
-			if !isCancelled(r.err, "first-reason") {
-				c.Violation("C07 wrong-reason builtin", fmt.Sprintf("error after Cancel(first-reason);Cancel(second-reason) is %v (%s)", r.err, p.name), detail)
+			if !isCancelled(r.err, "first-reason 50%") {
+				c.Violation("C07 wrong-reason builtin", fmt.Sprintf("error after Cancel(first-reason 50%%);Cancel(second-reason) is %v (%s)", r.err, p.name), detail)
 			}
 			// cancellation persists for later executions on the same thread, until Uncancel
 			r2 := execute("x = 1\n", runOpts{thread: r.thread})
-			if !isCancelled(r2.err, "first-reason") || r2.hs.count != 0 {
+			if !isCancelled(r2.err, "first-reason 50%") || r2.hs.count != 0 {
 				c.Violation("C07 not-persistent", fmt.Sprintf("next execution on the cancelled thread: err=%v, %d instruction starts", r2.err, r2.hs.count), detail)
 			}
 			r.thread.Uncancel()
@@ -417,7 +477,7 @@ func armAsyncInjected(c *driver.Ctx) {
 
 func armSequences(c *driver.Ctx) {
 	maxLen := c.Pick(4, 6)
-	ops := []string{"cancel-a", "cancel-b", "uncancel", "exec", "exec-limit"}
+	ops := []string{"cancel-a", "cancel-b 100%s %d%", "uncancel", "exec", "exec-limit", "exec-keep"}
 	// enumerate by first two ops as a case, all extensions inside
 	for a := range ops {
 		for b := range ops {
@@ -444,13 +504,14 @@ func armSequences(c *driver.Ctx) {
 
 func checkSequence(c *driver.Ctx, ops []string, seq []int) {
 	th := &starlark.Thread{Name: "seq"}
-	reg := "" // model: the reason in force ("" = none)
+	reg := ""        // model: the reason in force ("" = none)
+	limited := false // model: a step limit of 5 is in force on the thread
 	var names []string
 	for step, oi := range seq {
 		op := ops[oi]
 		names = append(names, op)
 		switch op {
-		case "cancel-a", "cancel-b":
+		case "cancel-a", "cancel-b 100%s %d%":
 			th.Cancel(op)
 			if reg == "" {
 				reg = op
@@ -458,10 +519,17 @@ func checkSequence(c *driver.Ctx, ops []string, seq []int) {
 		case "uncancel":
 			th.Uncancel()
 			reg = ""
-		case "exec", "exec-limit":
+		case "exec", "exec-limit", "exec-keep":
 			o := runOpts{thread: th, maxSteps: math.MaxUint64}
 			if op == "exec-limit" {
 				o.maxSteps = 5 // the program below needs more
+				limited = true
+			}
+			if op == "exec-keep" {
+				o.maxSteps = 0 // leave the thread's limit as it is
+			}
+			if op == "exec" {
+				limited = false
 			}
 			r := execute("def f():\n    return [i for i in range(5)]\nx = f()\n", o)
 			c.Eval(1)
@@ -473,7 +541,8 @@ func checkSequence(c *driver.Ctx, ops []string, seq []int) {
 				if !isCancelled(r.err, reg) || r.hs.count != 0 {
 					c.Violation("C07 sequence cancelled-thread-ran", fmt.Sprintf("after %v: thread cancelled with %q must fail at once naming it; got err=%v after %d instruction starts", names, reg, r.err, r.hs.count), detail)
 				}
-			case op == "exec-limit":
+			case op == "exec-limit" || op == "exec-keep" && limited:
+				// (with the limit of 5 kept from an earlier exec-limit the thread is past it already)
 				if !isCancelled(r.err, "too many steps") || r.hs.count >= 5 {
 					c.Violation("C07 sequence limit", fmt.Sprintf("after %v: limit 5 gave err=%v after %d instruction starts", names, r.err, r.hs.count), detail)
 				}
